@@ -140,6 +140,22 @@ fn boundary_ns(secs: u32, frac: u32, ns_max: i128, ns_min: i128) -> Vec<i128> {
     v.extend([DAY - pos - 1, DAY - pos, DAY - pos + 1, DAY - pos + NS, -pos - 1, -pos, -pos + 1]);
     v
 }
+/// (audit2 L3) the operand-relative boundaries (reach :60.0 / :61.0, start of the second, previous second, each ±1 ns)
+/// combined with ±1 and ±2 whole days; same list, same order as `dayBoundaryDeltas` in lean/Chrono/Drv/Time.lean
+fn day_boundary_ns(frac: u32) -> Vec<i128> {
+    let f = frac as i128;
+    let mut v = vec![];
+    for k in [-2i128, -1, 1, 2] {
+        for b in [NS - f, 2 * NS - f, -f, -f - NS] {
+            for e in [-1i128, 0, 1] {
+                v.push(k * DAY + b + e);
+            }
+        }
+    }
+    v
+}
+/// (audit2 M2) the std Duration seconds run on every second with a leap operand; same list, same order as `stdSecs`
+const STD_SECS: [u64; 14] = [86_399, 86_400, 86_401, 172_799, 172_800, 172_801, 259_199, 259_200, 259_201, 86_399_999, 86_400_000, 86_400_001, u64::MAX, i64::MAX as u64 + 1];
 fn mix(m: i128, h: i128, x: i128) -> i128 {
     (h * m + x.rem_euclid(P)).rem_euclid(P)
 }
@@ -441,6 +457,34 @@ pub fn run(c: &mut Ctx) {
     let with_vals: Vec<u32> = vec![0, 1, 11, 12, 23, 24, 25, 58, 59, 60, 61, 1_193_046, 71_582_788, 71_582_789, i32::MAX as u32, u32::MAX];
     let n_diff_per_sec = c.n(3, 24);
     let n_addx_per_sec = c.n(1, 6);
+    // ======== (audit2 L3) date-time differences spanning the whole range (both `expect`s of signed_duration_since) ====
+    {
+        let dates = [NaiveDate::MIN, NaiveDate::MIN + chrono::Days::new(1), mid, NaiveDate::MAX - chrono::Days::new(1), NaiveDate::MAX];
+        let times: [(u32, u32); 7] = [(0, 0), (0, 1_000_000_000), (0, 1_999_999_999), (43_200, 500_000_000), (86_399, 999_999_999), (86_399, 1_000_000_000), (86_399, 1_999_999_999)];
+        for da in dates {
+            for ta in times {
+                for db in dates {
+                    for tb in times {
+                        let (a, b) = (NaiveDateTime::new(da, mk(ta.0, ta.1)), NaiveDateTime::new(db, mk(tb.0, tb.1)));
+                        let (day, day2) = (da.num_days_from_ce() as i64, db.num_days_from_ce() as i64);
+                        let got = guard(|| a.signed_duration_since(b));
+                        let line = format!("{} {} {} {} {} {}", yof(&da), ta.0, ta.1, yof(&db), tb.0, tb.1);
+                        c.op(&format!("ar.dtdiff {line}"), &match &got { Ok(x) => show_td(x), Err(()) => "panic".into() });
+                        c.op(&format!("tm.dtdiff {day} {} {} {day2} {} {}", ta.0, ta.1, tb.0, tb.1), &match &got { Ok(x) => show_td(x), Err(()) => "panic".into() });
+                        tl.add("dtdiff:range-spanning fixed pair");
+                        match (&got, guard(|| b.signed_duration_since(a)), guard(|| a - b)) {
+                            (Ok(x), Ok(y), Ok(z)) => {
+                                if td_ns(x) != -td_ns(&y) || *x != z || td_ns(x) != (day - day2) as i128 * DAY + spec_diff(ta, tb) {
+                                    fl.hit(c, "range-spanning date-time difference is not antisymmetric / not days + time-of-day difference / differs from the `-` operator", &format!("ar.dtdiff {line} -> {}", show_td(x)));
+                                }
+                            }
+                            _ => fl.hit(c, "range-spanning date-time difference panicked (an `expect` of signed_duration_since fired)", &format!("ar.dtdiff {line}")),
+                        }
+                    }
+                }
+            }
+        }
+    }
     for secs in 0u32..86_400 {
         // ---- digest lines: every boundary duration, add and sub ---------------------------------
         let near = matches!(secs % 60, 0 | 1 | 58 | 59) || secs < 120 || secs >= 86_280;
@@ -462,6 +506,53 @@ pub fn run(c: &mut Ctx) {
                 h = mix_tc(mix_tc(h, &add), &sub);
             }
             c.op(&format!("tm.addb {secs} {frac}"), &format!("{} {}", h.0, h.1));
+        }
+        // ---- (audit2 L3 / M2) per second: the operand-relative boundaries combined with whole days, and the fixed
+        // std Duration list on a leap-second operand — NOT gated on `secs % 8` ------------------------------------
+        {
+            let sel: Vec<u32> = if thorough {
+                fracs.clone()
+            } else {
+                // quick: one leap class on every second (rotating), a non-leap class next to minute / day boundaries
+                let mut v = vec![FRAC_CLASSES[3 + (secs % 3) as usize]];
+                if near {
+                    v.push(FRAC_CLASSES[((secs / 2) % 3) as usize]);
+                }
+                v
+            };
+            for &frac in &sel {
+                let mut h = (1i128, 1i128);
+                for dn in day_boundary_ns(frac) {
+                    let (add, sub) = check_add(c, &mut fl, &mut tl, secs, frac, dn);
+                    h = mix_tc(mix_tc(h, &add), &sub);
+                }
+                c.op(&format!("tm.addk {secs} {frac}"), &format!("{} {}", h.0, h.1));
+                tl.add(if (frac as i128) >= NS { "addk:whole days + operand-relative boundary, leap operand" } else { "addk:whole days + operand-relative boundary, non-leap operand" });
+                if (frac as i128) < NS {
+                    continue;
+                }
+                let t = mk(secs, frac);
+                let df = [0u32, 1, 500_000_000, 999_999_999][((secs / 3) % 4) as usize];
+                let mut h = (1i128, 1i128);
+                for ds in STD_SECS {
+                    let dur = Duration::new(ds, df);
+                    let dn = ds as i128 * NS + df as i128;
+                    let (x, x2) = (guard(|| t + dur), guard(|| t - dur));
+                    let (e, e2) = (spec_add(secs, frac, dn), spec_add(secs, frac, -dn));
+                    match (&x, &x2) {
+                        (Ok(a), Ok(b)) => {
+                            if raw(a) != (e.0, e.1) || raw(b) != (e2.0, e2.1) {
+                                fl.hit(c, "NaiveTime +/- std Duration on a leap-second operand is not the extended-line sum with the full amount (fixed list k days, k days +- 1 s, u64 extremes)",
+                                    &format!("tm.addstd/substd {secs} {frac} {ds} {df} -> {} / {}, expected {} {} / {} {}", show_t(a), show_t(b), e.0, e.1, e2.0, e2.1));
+                            }
+                        }
+                        _ => fl.hit(c, "NaiveTime +/- std Duration on a leap-second operand panicked (fixed list)", &format!("tm.addstd {secs} {frac} {ds} {df}")),
+                    }
+                    h = mix_tc(mix_tc(h, &x.map(|t| (t, 0i64))), &x2.map(|t| (t, 0i64)));
+                    tl.add("std:fixed list (k days, k days +- 1 s, u64 extremes) on a leap operand, every second");
+                }
+                c.op(&format!("tm.stdb {secs} {frac} {df}"), &format!("{} {}", h.0, h.1));
+            }
         }
         // ---- explicit additions (pinpointed on disagreement) ------------------------------------
         for k in 0..n_addx_per_sec {
@@ -764,6 +855,29 @@ pub fn run(c: &mut Ctx) {
                             Err(()) => fl.hit(c, "date-time difference after addition panicked", &format!("{name} {day} {ts} {frac} {ds} {df}")),
                         }
                     }
+                    // (audit2 L2) the operator forms through the packed model (ar.dtopadd / ar.dtopsub / ar.dtstdadd / ar.dtstdsub),
+                    // refusal side included: they must panic exactly when the checked form returns None
+                    if let Ok(chk) = &got {
+                        let opr = guard(|| if is_add { dt + d } else { dt - d });
+                        let asg = guard(|| { let mut m = dt; if is_add { m += d } else { m -= d }; m });
+                        let show_r = |r: &Result<NaiveDateTime, ()>| match r { Ok(x) => show_packed(Some(*x)), Err(()) => "panic".into() };
+                        c.op(&format!("{} {} {ts} {frac} {ds} {df}", if is_add { "ar.dtopadd" } else { "ar.dtopsub" }, yof(&date)), &show_r(&opr));
+                        let mut all: Vec<(&'static str, Result<NaiveDateTime, ()>)> = vec![("operator", opr), ("assign operator", asg)];
+                        if let Ok(sd) = d.to_std() {
+                            let so = guard(|| if is_add { dt + sd } else { dt - sd });
+                            c.op(&format!("{} {} {ts} {frac} {} {}", if is_add { "ar.dtstdadd" } else { "ar.dtstdsub" }, yof(&date), sd.as_secs(), sd.subsec_nanos()), &show_r(&so));
+                            all.push(("std Duration operator", so));
+                            all.push(("std Duration assign operator", guard(|| { let mut m = dt; if is_add { m += sd } else { m -= sd }; m })));
+                        }
+                        for (how, v) in all {
+                            match (chk, &v) {
+                                (None, Err(())) => tl.add("dt:operator panics where the checked form refuses"),
+                                (None, Ok(x)) => fl.hit(c, "date-time operator returned a value although the checked form refuses (must panic)", &format!("{how} {name} {day} {ts} {frac} {ds} {df} -> {}", show(Some(*x)))),
+                                (Some(r), Ok(x)) if x == r => tl.add("dt:operator = checked form"),
+                                (Some(r), _) => fl.hit(c, "date-time operator differs from the accepted checked form (or panicked)", &format!("{how} {name} {day} {ts} {frac} {ds} {df} -> {:?} (checked form {})", v, show(Some(*r)))),
+                            }
+                        }
+                    }
                     // the operator and std::time::Duration forms are the checked form whenever it succeeds
                     if let Ok(Some(r)) = got {
                         let mut forms: Vec<(&'static str, Result<NaiveDateTime, ()>)> = vec![];
@@ -895,6 +1009,7 @@ pub fn run(c: &mut Ctx) {
         }
     }
     c.sample("tm.addb <secs> <frac>: two 31-bit digests over overflowing_add_signed and overflowing_sub_signed for the 52 boundary durations of that operand");
+    c.sample("tm.addk <secs> <frac>: the same digests over the 48 durations k days + operand-relative boundary (k = -2,-1,1,2); tm.stdb <secs> <frac> <nanos>: digests over + / - core::time::Duration for the 14 fixed seconds (k days, k days +- 1 s, u64::MAX, i64::MAX+1) on a leap operand, every second");
     for (k, v) in std::mem::take(&mut tl.0) {
         c.count_n(k, v);
     }
